@@ -328,6 +328,12 @@ func (c *Client) validateVirtualChannelFundingProposal(
 		return errors.New("invalid balances")
 	}
 
+	// Assert that the sub-allocation is appended and all other locked funds stay as they are.
+	locked := append(ch.state().Clone().Locked, *expected)
+	if !channel.SubAllocsEqual(locked, prop.State.Locked) {
+		return errors.New("other sub-allocations changed")
+	}
+
 	return nil
 }
 
